@@ -380,3 +380,29 @@ def is_nontrivial(spec: StructSpec, tree: dict) -> bool:
             continue
         return True
     return bool(tree.get("$unknown") or tree.get("$explicit"))
+
+
+def tree_in_wire_domain(spec: StructSpec, tree: dict) -> bool:
+    """Is every leaf of a (reference-decoded) tree inside the in-range wire domain of DESIGN.md 5.1?"""
+    for fs in spec.fields:
+        v = tree.get(fs.name)
+        items = v if (fs.array and v is not None) else [v]
+        for x in items:
+            if x is None:
+                continue
+            if fs.kind == "struct":
+                if not tree_in_wire_domain(fs.struct, x):
+                    return False
+            elif fs.ktype == "error_code":
+                if x not in error_codes():
+                    return False
+            elif fs.ktype == "datetime_i64":
+                if not 0 <= x <= DT_MAX:
+                    return False
+            elif fs.ktype == "timedelta_i64":
+                if not TD64_MIN <= x <= TD64_MAX:
+                    return False
+            elif fs.ktype == "float64":
+                if x != x:
+                    return False  # NaN payloads are C05's business (== cannot compare them)
+    return True
